@@ -32,7 +32,7 @@ DIMS = {
     "am": ["client_secret_basic", "client_secret_post", "client_secret_jwt", "private_key_jwt"],
     "atf": ["opaque", "jwt"],
     "rtf": ["opaque", "jwt"],
-    "ialg": ["RS256", "ES256", "HS256", "PS256"],
+    "ialg": ["RS256", "ES256", "HS256", "PS256", "HS384", "HS512", "RS384"],
     "ienc": [None, "RSA-OAEP", "ECDH-ES"],
     "ui": ["json", "RS256", "ES256", "enc"],
     "req": ["plain", "request", "request_uri", "par"],
@@ -172,6 +172,8 @@ def impl(c):
     del log[:]
     ctx = server.context
     scopes = ["openid"] + rng.sample(["profile", "email", "offline_access"], rng.randint(0, 3))
+    if rng.random() < 0.35:
+        scopes.append(rng.choice(["foo", "urn:example:unsupported"]))      # a scope the provider does not support: dropped, consistently
     req_args = {"scope": scopes, "response_type": cell["rt"]}
     if cell["rm"]:
         req_args["response_mode"] = cell["rm"]
@@ -206,6 +208,7 @@ def impl(c):
             obs["why"] = json.dumps(params["__error__"])[:200]
             return _fail(obs)
         obs["delivery"] = how["how"]
+        obs["authz_scope"] = params.get("scope")       # what the authorization response itself states
         obs["stage"] = "finalize"
         if "error" in params:
             obs["stage"] = "authorization"
@@ -322,6 +325,10 @@ def oracle(c, obs):
     rs = vw["rp"]["scope"]
     if rs is not None:
         sc["token_response"] = sorted(rs.split(" ") if isinstance(rs, str) else rs)
+    az = obs.get("authz_scope")
+    if az:
+        sc["authorization_response"] = sorted(az.split(" ") if isinstance(az, str) else az)
+    sc["session_grant"] = vw["session"]["scope"]
     agree("scope", sc)
     ex = {"session": vw["session"]["at_expires_at"]}
     if "jwt" in vw:
